@@ -6,7 +6,7 @@ current one; P4 every merge is accompanied by evidence that the merged lifecycle
 (still in the buffered set) or by its removal from the table; O1 comparators that order lifecycles
 are key-based (total).  Not decided: numeric agreement of counts for all streams, listing order."""
 import re
-import lcstage, guards, effects, pairing, comparators
+import lcstage, guards, effects, pairing, comparators, counting
 from cfg import CFG
 from expr import ExprBuilder, show, walk
 from paths import Explorer
@@ -689,6 +689,18 @@ def check_merge_needs_all_queued(st, P7):
             sc = show(c)
             if truth is True and sc.startswith('Eq(') and 'Iterator::count(' in sc and 'nr_msgs' in sc and ('VecDeque::iter(' in sc or 'buffered_msgs' in sc):
                 ok = sc
+            elif truth is True and isinstance(c, tuple) and c[0] == 'bin' and c[1] == 'Eq':
+                # the same count spelled as a loop: `let mut n = 1; for m in queued.iter() { if m.lifecycle == id { n += 1 } }`
+                for (cnt, other) in ((c[2], c[3]), (c[3], c[2])):
+                    if not (isinstance(cnt, tuple) and cnt[0] == 'place' and len(cnt) == 2 and 'nr_msgs' in show(other)):
+                        continue
+                    for l in body.locals_named(cnt[1]):
+                        cl = counting.counting_loop(cfg, EF, l)
+                        if cl is None or D in cl['body'] or not cfg.dominates(cl['loop'], D):
+                            continue
+                        if ('VecDeque::iter(' in cl['source'] or 'buffered_msgs' in cl['source']) and \
+                                all(any(t is True and x.startswith('Eq(') and '.lifecycle' in x for (x, t) in cs) for cs in cl['conds']):
+                            ok = sc
         if ok:
             P7.ok(sample={'merge_at': body.loc(body.blocks[m].term.sp), 'only_when': 'count of queued messages of the merged lifecycle (+1) == its nr_msgs'})
         else:
